@@ -3,6 +3,8 @@
 
   seeded/<id>/patch.diff          must make the check of the property it breaks exit 1   (written by independent sub-agents)
   selftest/benign/<id>/patch.diff behaviour-preserving refactorings: every check must stay silent (exit 0)
+  selftest/twins_cross/<id>/       corrected twins of seeded changes that break another property: that property's check must exit 1
+  selftest/benign_undecided/<id>/  correct changes some check cannot decide: exit 0 or 2 on every check, never a VIOLATION
 A patch that no longer applies to the current tree is 'n/a', never a pass.  Usage: selftest/corpus.py [--jobs N] [Cnn]
 """
 import glob
@@ -46,6 +48,13 @@ def one(kind, name, patch, props, repo):
                     msgs.append("%s: expected a VIOLATION, got exit %d %s" % (p, rc, err[:1]))
                 else:
                     msgs.append("%s: %s" % (p, cons[0][0].split(" ")[0] if cons else "?"))
+            elif kind == "undecided":
+                # a correct change on which some check may answer "cannot decide" (exit 2) - never a VIOLATION
+                if rc == 1:
+                    ok = False
+                    msgs.append("%s: exit 1 %s" % (p, [c.split(" ")[-1] for c, _ in cons][:2]))
+                elif rc == 2:
+                    msgs.append("%s: cannot decide" % p)
             else:
                 if rc != 0:
                     ok = False
@@ -63,6 +72,13 @@ def jobs_for(prop=None):
             todo.append(("declined" if m.get("declined") else "seeded", m["id"], os.path.join(os.path.dirname(d), "patch.diff"), [m["breaks_property"]]))
     for d in sorted(glob.glob(os.path.join(HERE, "benign", "*", "patch.diff"))):
         todo.append(("benign", os.path.basename(os.path.dirname(d)), d, [prop] if prop else ALL))
+    for d in sorted(glob.glob(os.path.join(HERE, "twins_cross", "*", "meta.json"))):
+        m = json.load(open(d))
+        if prop is None or m["breaks_instead"] == prop:
+            # the corrected version of a seeded change that keeps its own property but breaks another one: that one must fire
+            todo.append(("seeded", os.path.basename(os.path.dirname(d)), os.path.join(os.path.dirname(d), "patch.diff"), [m["breaks_instead"]]))
+    for d in sorted(glob.glob(os.path.join(HERE, "benign_undecided", "*", "patch.diff"))):
+        todo.append(("undecided", os.path.basename(os.path.dirname(d)), d, [prop] if prop else ALL))
     return todo
 
 
@@ -77,7 +93,7 @@ if __name__ == "__main__":
     res = run_for_property(prop)
     bad = 0
     for kind, name, st, msg in res:
-        if st != "ok" or kind in ("seeded", "declined"):
+        if st != "ok" or kind in ("seeded", "declined", "undecided"):
             print("%-7s %-4s %-10s %s" % (kind, st, name, msg[:200]))
         bad += st == "FAIL"
     na = sum(1 for r in res if r[2] == "n/a")
